@@ -205,6 +205,19 @@ def _retype(text):
     return ['b', 1] if t.lower() == 'yes' else ['b', 0] if t.lower() == 'no' else ['t', t]
 
 
+def oracle_zero_null(ctx, LR, content, text, case, res=None):
+    """Like `oracle`, for a NULL line whose value text is a spelling of zero that the content model cannot print
+    (`-0.0`, `0E0`): the NULL line's own value is compared by value (zero, int or float), everything else exactly."""
+    got = (res if res is not None else impl_parse(LR, text))[0]
+    if 'err' not in got:
+        for t, ms in got['sections']:
+            if t == 'W':
+                for m in ms:
+                    if m[0] == 'L' and m[1] == ['t', 'NULL'] and m[3][0] in 'if' and (m[3][1] == 0 or m[3][1] == _fhex(0.0)):
+                        m[3] = ['f', _fhex(0.0)]
+    return oracle(ctx, LR, content, text, case, (got, (res if res is not None else impl_parse(LR, text))[1]))
+
+
 def oracle_numeric_mnemonic(ctx, LR, content, text, case):
     """Mnemonics/units that look like a number or yes/no: the data values and everything else must be as written
     (unlisted failure otherwise); the retyped mnemonic/unit itself is the open finding F_RETYPED."""
@@ -380,10 +393,26 @@ def run(ctx):
         oracle(ctx, LR, c, t, {'op': 'content_text', 'content': c, 'text': t}, res)
 
     # ---- classes repaired in /repo (declared NULL, single-curve wrapped): still generated, a failure is unlisted
-    for _ in range(ctx.n(20, 100)):
-        c = G.gen_content(rng, null=rng.choice([['f', -9999, 0], ['i', -9999], ['f', -99999, -2]]), bad_rate=0.3, allow_bad_x=False)
+    for _ in range(ctx.n(40, 200)):
+        c = G.gen_content(rng, null=rng.choice([['f', -9999, 0], ['i', -9999], ['f', -99999, -2], ['i', 0], ['f', 0, -1], ['f', 0, 0], ['f', 0, 2]]),
+                          bad_rate=0.3, allow_bad_x=False)
         l = G.gen_layout(rng, c)
         oracle(ctx, LR, c, G.print_las(c, l), _case(c, l))
+    # NULL spelled -0.0 / 0E0 / +0 / -0 (spellings the printer styles do not produce): written through a placeholder
+    for _ in range(ctx.n(12, 60)):
+        c = G.gen_content(rng, null=['t', '@NULL@'], bad_rate=0.3, allow_bad_x=False)
+        l = G.gen_layout(rng, c)
+        text = G.print_las(c, l).replace('@NULL@', rng.choice(['-0.0', '0E0', '+0', '-0', '0e-5', '00.00', '-.0']))
+        c2 = copy.deepcopy(c)
+        for s_ in c2['sects']:
+            if s_['typ'] == 'W':
+                for h in s_['lines']:
+                    if h['mnem'] == 'NULL': h['value'] = ['f', 0, 0]
+        res = impl_parse(LR, text)
+        (m_,) = ctx.lean(['parse ' + text.encode('ascii').hex()])
+        ctx.corr('lasparse_zero_null', {'op': 'text', 'text': text}, res[0], model_struct(m_))
+        # the declared NULL is 0: cells equal to 0 and bad tokens are masked, -999.25 is data
+        oracle_zero_null(ctx, LR, c2, text, {'op': 'content_text_zero_null', 'content': c2, 'text': text}, res)
     for _ in range(ctx.n(10, 50)):
         c = G.gen_content(rng, max_curves=2, wrap=True)
         cs = [s for s in c['sects'] if s['typ'] == 'C'][0]
@@ -491,6 +520,12 @@ def replay(ctx, rec):
         if len(ctx.failures) > n0:
             return False, ctx.failures[-1]['detail']
         return True, 'the reader returns the written content (or only the known retyping of a number-like mnemonic/unit)'
+    if case.get('op') == 'content_text_zero_null':
+        n0 = len(ctx.failures)
+        oracle_zero_null(ctx, LR, case['content'], case['text'], case)
+        if len(ctx.failures) > n0:
+            return False, ctx.failures[-1]['detail']
+        return True, 'the reader returns the written content'
     if case.get('op') == 'content_text':
         n0 = len(ctx.failures)
         oracle(ctx, LR, case['content'], case['text'], case)
